@@ -8,6 +8,8 @@ from ..mon.client import call
 from ..mon import hooks
 
 import os
+import random
+import zlib
 import shutil
 import tempfile
 
@@ -97,7 +99,45 @@ def cases(rng, tier, shard, nshards):
 
 def cross_field_doc(rng):
     """documents built to sit on one cross-field rule (valid and invalid by that rule)."""
-    k = rng.randrange(8)
+    k = rng.randrange(10)
+    if k == 9:      # GFA1 paths whose overlaps agree or not with the overlaps of the links
+        ovs = ["*", "5M", "6M"]
+        out = ["S\ta\t*", "S\tb\t*", "S\tc\t*"]
+        steps = [("a", "+", "b", "+"), ("b", "+", "c", rng.choice("+-"))]
+        for f, fo, t, to in steps:
+            if rng.random() < 0.85:
+                ov = rng.choice(ovs)
+                if rng.random() < 0.3 and ov != "*":
+                    out.append("L\t%s\t%s\t%s\t%s\t%s" % (t, S.inv(to), f, S.inv(fo), ov))
+                else:
+                    out.append("L\t%s\t%s\t%s\t%s\t%s" % (f, fo, t, to, ov))
+        for pn in ["p", "q"][:rng.randint(1, 2)]:
+            n = rng.choice([2, 2, 3])
+            names = ["a+", "b+", "c" + steps[1][3]][:n]
+            if rng.random() < 0.3:
+                pov = "*"
+            else:
+                pov = ",".join(rng.choice(ovs) for _ in range(n - 1))
+            out.append("P\t%s\t%s\t%s" % (pn, ",".join(names), pov))
+        rng.shuffle(out)
+        return out
+    if k == 8:      # a group defined on several lines, its tags agreeing or not (the verdict on a
+        # disagreement is not the grammar's, but it cannot depend on the order of the lines)
+        rt = rng.choice("UO")
+        pairs = [("xx:i:0", "xx:i:5"), ("xx:f:0.0", "xx:f:1.5"), ("xx:J:[]", "xx:J:[1]"), ("xx:J:{}", "xx:J:{\"a\":1}"),
+                 ("xx:i:3", "xx:i:4"), ("xx:Z:a", "xx:Z:b"), ("xx:i:0", "xx:f:0.0"), ("xx:i:0", "xx:Z:0"),
+                 ("xx:i:2", "xx:i:2"), ("xx:i:0", "xx:i:0"), ("xx:i:0", "yy:i:1"), ("xx:i:0", "")]
+        a, b = rng.choice(pairs)
+        if rng.random() < 0.5:
+            a, b = b, a
+        o = "+" if rt == "O" else ""
+        out = ["S\tA\t10\t*", "S\tB\t10\t*", "S\tC\t10\t*",
+               "E\t*\tA+\tB+\t5\t10$\t0\t5\t*", "E\t*\tB+\tC+\t5\t10$\t0\t5\t*",
+               "\t".join(x for x in [rt, "g", "A" + o + " B" + o, a] if x),
+               "\t".join(x for x in [rt, "g", ("B" + o + " C" + o) if rt == "O" else "C", b] if x)]
+        if rng.random() < 0.5:
+            rng.shuffle(out)
+        return out
     if k == 0:      # LN vs sequence
         n = rng.randint(1, 9)
         ln = rng.choice([n, n, n + 1, n - 1, 0])
@@ -210,6 +250,72 @@ def judge(ctx, verdict, constructed, validated, what, keybase, r, v):
                       "%s is invalid per the grammar (%s) but was accepted and passes validate()" % (what, reason))
 
 
+def order_twin(ctx, case, lines, kw, accepted, out, verdict):
+    """the grammar knows no line order: the same lines in another order are the same document, so
+    the two verdicts must agree (whatever the verdict is -- this also decides documents on which the
+    recogniser is silent).  Lines are offered as a list so that no line-end handling interferes."""
+    if len(lines) < 2 or len(lines) > 40:
+        return
+    rng = random.Random(zlib.crc32(repr(lines).encode("utf8", "replace")))
+    if rng.random() > 0.35:
+        return
+    other = list(lines)
+    if rng.random() < 0.4:
+        other.reverse()
+    else:
+        rng.shuffle(other)
+    if other == lines:
+        return
+    if case.get("entry", "list") != "list":
+        # the first verdict came through another entry point: take it again from a list
+        c0, v0, r0, vv0, _ = accept_doc(ctx, lines, kw, "list")
+        accepted, out = bool(c0 and v0), (r0 if not c0 else vv0)
+    c2, v2, r2, vv2, _ = accept_doc(ctx, other, kw, "list")
+    ctx.count("order_twins_judged")
+    acc2 = bool(c2 and v2)
+    if acc2 == accepted:
+        return
+    ctx.count("order_twins_disagreeing")
+    bad = out if not accepted else (r2 if not c2 else vv2)
+    ctx.violation("verdict-depends-on-line-order/%s/%s" % (verdict[0], bad.cls()),
+                  "the lines %r are %s, the same lines in the order %r are %s (%s: %s); kw=%r"
+                  % (lines, "accepted" if accepted else "refused", other, "accepted" if acc2 else "refused",
+                     bad.cls(), str(bad.exc)[:160], kw))
+
+
+def accept_doc(ctx, lines, kw, entry):
+    """(constructed?, explicit validation ok?, outcomes, entry point used) for a document."""
+    if entry == "str":
+        r = call(ctx, "Gfa(str)", gfapy.Gfa, "\n".join(lines), **kw)
+    elif entry == "file":
+        fn = os.path.join(_tmp, "doc.gfa")
+        try:
+            with open(fn, "w", encoding="utf8", newline="") as f:
+                f.write("\n".join(lines) + "\n")
+            r = call(ctx, "Gfa.from_file", gfapy.Gfa.from_file, fn, **kw)
+        except UnicodeEncodeError:
+            r = call(ctx, "Gfa(list)", gfapy.Gfa, list(lines), **kw)
+            entry = "list"
+    else:
+        r = call(ctx, "Gfa(list)", gfapy.Gfa, list(lines), **kw)
+    constructed = r.ok
+    validated = None
+    v = None
+    if constructed:
+        g = r.value
+        v = call(ctx, "gfa.validate()", g.validate)
+        validated = v.ok
+        if validated:
+            for l in g.lines:
+                if l.virtual:
+                    continue
+                lv = call(ctx, "line.validate()", l.validate)
+                if not lv.ok:
+                    validated, v = False, lv
+                    break
+    return constructed, validated, r, v, entry
+
+
 def run(case, ctx):
     k = case["k"]
     if k == "marker-exhaustive-done":
@@ -260,41 +366,15 @@ def run(case, ctx):
     entry = case.get("entry", "list")
     if entry in ("str", "file") and any("\n" in l or "\r" in l for l in lines):
         entry = "list"          # (the text would denote other lines)
-    if entry == "str":
-        r = call(ctx, "Gfa(str)", gfapy.Gfa, "\n".join(lines), **kw)
-    elif entry == "file":
-        fn = os.path.join(_tmp, "doc.gfa")
-        try:
-            with open(fn, "w", encoding="utf8", newline="") as f:
-                f.write("\n".join(lines) + "\n")
-            r = call(ctx, "Gfa.from_file", gfapy.Gfa.from_file, fn, **kw)
-        except UnicodeEncodeError:
-            r = call(ctx, "Gfa(list)", gfapy.Gfa, list(lines), **kw)
-            entry = "list"
-    else:
-        r = call(ctx, "Gfa(list)", gfapy.Gfa, list(lines), **kw)
+    constructed, validated, r, v, entry = accept_doc(ctx, lines, kw, entry)
     ctx.count("docs_judged")
     ctx.count("docs_entry:" + entry)
     ctx.count("verdict:" + verdict[0])
-    constructed = r.ok
-    validated = None
-    v = None
-    if constructed:
-        g = r.value
-        v = call(ctx, "gfa.validate()", g.validate)
-        validated = v.ok
-        if validated:
-            for l in g.lines:
-                if l.virtual:
-                    continue
-                lv = call(ctx, "line.validate()", l.validate)
-                if not lv.ok:
-                    validated, v = False, lv
-                    break
     reason = (verdict[1] or "").split(":")[0]
     judge(ctx, verdict, constructed, validated, "document %r (version=%s, dialect=%s, vlevel=%d)"
           % (lines, version, dialect, vlevel), "doc" if entry == "list" else "doc-" + entry, r, v)
     if verdict[0] != S.UNSPEC:
         ctx.nontriv(case)
+    order_twin(ctx, case, lines, kw, bool(constructed and validated), r if not constructed else v, verdict)
     ctx.add("doc_reasons", "%s:%s" % (verdict[0], reason))
     ctx.sample(case)
